@@ -16,7 +16,7 @@ def run(ctx):
     exe = ctx.driver('c09_tlv', ['c09_tlv.c'])
     quick = ctx.tier == 'quick'
     seed = ctx.seed
-    k = 1 if quick else 30          # multiplier for the random tree populations
+    k = 1 if quick else 20          # multiplier for the random tree populations
     jobs = []
 
     def add(gen, what, nshards, count):
